@@ -44,6 +44,8 @@ def in_S1(case):
 @st.composite
 def cases(draw, tier):
     d = D(draw)
+    if d.int(0, 149) == 0:
+        return gen.meek_prf_boundary_case(d)        # a non-electing iteration ending with surplus == omega exactly
     stratum = 'S2' if d.p(25) else 'S1'
     case = draw(gen.election_cases(tier=tier, rules=model.MEEK, equal_for_meek=True, stratum=stratum))
     if case['rule'] != 'meek-prf' and d.p(6):
